@@ -31,18 +31,30 @@ def sparse_val(rng):
     """k * 2^e + delta for e at / next to a limb boundary, small k, small delta (possibly negative, mod p)"""
     e = rng.choice([0, 50, 51, 52, 101, 102, 103, 152, 153, 154, 203, 204, 205, 253, 254])
     k = rng.randrange(1, 40)
-    dlt = rng.randrange(-40, 41)
+    dlt = rng.randrange(-40, 41) if rng.randrange(2) else 0
     return (k * 2**e + dlt) % P
+
+
+def chain_val(rng):
+    """a value adjacent to a multiple of the limb radix: (U << 51 j) + delta with U of random size and a small
+    delta of either sign, i.e. low limbs all zeros / all ones: carry and borrow chains cross limb boundaries"""
+    j = rng.randrange(1, 5)
+    bl = rng.randrange(0, 256 - 51 * j)
+    U = rng.randrange(2**bl) if bl else 0
+    dlt = rng.randrange(-40, 41)
+    return ((U << (51 * j)) + dlt) % P
 
 
 def field_val(rng):
     c = rng.randrange(10)
     if c < 3:
         return rnd_field(rng) % P
-    if c < 6:
+    if c < 5:
         return struct_val(rng) % P
-    if c < 8:
+    if c < 7:
         return sparse_val(rng)
+    if c < 9:
+        return chain_val(rng)
     return rng.randrange(P)
 
 
@@ -66,6 +78,8 @@ def special_point(rng):
             v = P - rng.randrange(1, 70)
         elif c == 2:
             v = sparse_val(rng)
+        elif c == 3:
+            v = chain_val(rng)
         else:
             v = struct_val(rng) % P
         if rng.randrange(2) == 0:
@@ -482,6 +496,32 @@ def suite_C06(g, tier):
         p.op("Point.Subtract", r="p2", a=["p2", "p1"])
         p.op("Point.Equal", r="p2", a=["p0"])
         p.op("Point.Equal", r="p2", a=["p1"])
+    # points with a sparse coordinate (k * 2^e exactly): differences that live in a single limb
+    exps = [50, 51, 101, 102, 152, 153, 203, 204, 254]
+    cands = [(e, k) for e in exps for k in range(1, 16)]
+    rng.shuffle(cands)
+    done = 0
+    for e, k in cands:
+        if done >= (24 if tier == "quick" else 135):
+            break
+        v = k * 2**e % P
+        pts = []
+        pt = point_with_x(v)
+        if pt is not None:
+            pts.append(pt)
+        if y_on_curve(v):
+            pts.append((recover_x(v, 0), v))
+        for (x, y) in pts:
+            done += 1
+            p = g.new("C06 sparse coordinate %d*2^%d" % (k, e))
+            load_point(p, "p0", (x, y), rng, "bytes")
+            for j, q in enumerate([((P - x) % P, y), (x, (P - y) % P), ((P - x) % P, (P - y) % P), (x, y)]):
+                load_point(p, "p1", q, rng, "bytes")
+                p.op("Point.Equal", r="p0", a=["p1"])
+                p.op("Point.Equal", r="p1", a=["p0"])
+                if j % 2 == 0:
+                    p.rescale("p1", rng.randrange(2, P))
+                    p.op("Point.Equal", r="p0", a=["p1"])
     for i in range(8):
         p = g.new("C06 torsion row %d" % i)
         load_point(p, "p0", TORS_PTS[i], rng)
@@ -704,7 +744,7 @@ FE_BIN = ["Elem.Add", "Elem.Subtract", "Elem.Multiply"]
 
 def directed_pair(rng, op):
     """operands chosen so that the RESULT is a structured value (carry / reduction boundaries in the output)"""
-    R = rng.choice([struct_val(rng) % P, sparse_val(rng), rng.randrange(64), P - 1 - rng.randrange(64)])
+    R = rng.choice([struct_val(rng) % P, sparse_val(rng), chain_val(rng), chain_val(rng), rng.randrange(64), P - 1 - rng.randrange(64)])
     a = field_val(rng)
     if op == "Elem.Add":
         return a, (R - a) % P
@@ -755,6 +795,33 @@ def suite_C09(g, tier):
             op = rng.choice(FE_UN)
             load_elem(p, "e0", field_val(rng), rng)
             p.op(op, r=rng.choice(["e0", "e7"]), a=["e0"])
+    # Mult32: result-directed (x = R / y for a structured result R), many multipliers
+    nm = 60 if tier == "quick" else 1500
+    for it in range(nm):
+        p = g.new("C09 Mult32 directed")
+        for k in range(8):
+            y32 = rng.choice([1, 2, 3, 19, 38, 121665, 121666, 2**31, 2**32 - 1, 2**32 - 19, rng.randrange(1, 2**32), rng.randrange(1, 2**32)])
+            R = rng.choice([chain_val(rng), chain_val(rng), struct_val(rng) % P, sparse_val(rng)])
+            xv = R * inv(y32) % P
+            load_elem(p, "e%d" % (k % 4), xv, rng, rng.choice(["bytes", "inject"]))
+            p.op("Elem.Mult32", r=rng.choice(["e4", "e%d" % (k % 4)]), a=["e%d" % (k % 4)], n=y32)
+    # Multiply / Square / Add / Subtract: result-directed
+    for it in range(nm):
+        p = g.new("C09 directed arithmetic")
+        for k in range(6):
+            op = rng.choice(FE_BIN + ["Elem.Square"])
+            if op == "Elem.Square":
+                R = rng.choice([chain_val(rng), struct_val(rng) % P, sparse_val(rng)])
+                rt = sqrt(R)
+                if rt is None:
+                    rt = sqrt(R * SQRTM1 % P) or 1
+                load_elem(p, "e0", rt, rng)
+                p.op(op, r=rng.choice(["e2", "e0"]), a=["e0"])
+            else:
+                a, b = directed_pair(rng, op)
+                load_elem(p, "e0", a, rng)
+                load_elem(p, "e1", b, rng)
+                p.op(op, r=rng.choice(["e2", "e0", "e1"]), a=["e0", "e1"])
     # special unary cases
     for v in [0, 1, P - 1, 2, SQRTM1, 19]:
         p = g.new("C09 unary special %d" % (v % 1000))
